@@ -96,8 +96,10 @@ def main(tier):
     b_seq = vf.build("st_order_seq", "st_order.cpp")
     b_tbb = vf.build("st_order_tbb", "st_order.cpp", defines=["GUDHI_USE_TBB"])
     n_order, n_ext = (3, 60) if tier == "quick" else (12, 400)
-    vf.run([b_seq, work, str(vf.seed()), str(n_order), str(n_ext)])
-    vf.run([b_tbb, work, str(vf.seed()), str(n_order), str(n_ext)])
+    for b in (b_seq, b_tbb):
+        _, crashed = vf.run_recorder([b, work, str(vf.seed()), str(n_order), str(n_ext)])
+        if crashed:
+            unknown.append(crashed)
     files = sorted(glob.glob(os.path.join(work, "*.ndjson")))
     res = vf.validate_traces("Trace_SimplexTree", "Trace_SimplexTree_big.cfg", files, par=6)
     nev = 0
